@@ -218,8 +218,10 @@ class Expander:
             rep = None
             if isinstance(s, ast.For):
                 rep = self.unroll(s, clsname, fn)
-            elif isinstance(s, (ast.Assign, ast.Return)):
+            elif isinstance(s, (ast.Assign, ast.Return, ast.Expr)):
                 rep = self.chain(s, clsname)
+                if rep is not None:
+                    rep = self.block(rep, clsname, fn)        # further lookups inside the arms
             if rep is None:
                 self.membership(s, clsname)
                 out.append(s)
@@ -280,48 +282,99 @@ class Expander:
                     ents = _entries(lit, how)
                     n.comparators[0] = ast.copy_location(ast.Tuple(elts=[copy.deepcopy(e) for e in ents], ctx=ast.Load()), n.comparators[0])
 
-    def chain(self, s, clsname):
-        v = s.value
-        if v is None:
-            return None
-        default = None
-        raise_missing = False
-        if isinstance(v, ast.Subscript) and not isinstance(v.slice, ast.Slice):
-            lit, how = self.table_of(v.value, clsname)
-            key = v.slice
-            raise_missing = True
-        elif isinstance(v, ast.Call) and isinstance(v.func, ast.Attribute) and v.func.attr == 'get' and 1 <= len(v.args) <= 2 and not v.keywords:
-            lit, how = self.table_of(v.func.value, clsname)
-            key = v.args[0]
-            default = v.args[1] if len(v.args) == 2 else ast.Constant(value=None)
-        else:
-            return None
-        if lit is None or how is not None or not isinstance(lit, ast.Dict) or not _simple_key(key):
-            return None
-        if isinstance(key, ast.Constant):
-            return None
+    def find_lookup(self, s, clsname):
+        """first TABLE[KEY] / TABLE.get(KEY[, d]) inside the simple statement s (dict tables, simple keys) -> (node, literal, key, default, raises)"""
+        for n in ast.walk(s):
+            if isinstance(n, ast.Subscript) and not isinstance(n.slice, ast.Slice) and isinstance(n.ctx, ast.Load):
+                lit, how = self.table_of(n.value, clsname)
+                if isinstance(lit, ast.Dict) and how is None and _simple_key(n.slice) and not isinstance(n.slice, ast.Constant):
+                    return n, lit, n.slice, None, True
+            if isinstance(n, ast.Call) and isinstance(n.func, ast.Attribute) and n.func.attr == 'get' and 1 <= len(n.args) <= 2 and not n.keywords:
+                lit, how = self.table_of(n.func.value, clsname)
+                if isinstance(lit, ast.Dict) and how is None and _simple_key(n.args[0]) and not isinstance(n.args[0], ast.Constant):
+                    return n, lit, n.args[0], (n.args[1] if len(n.args) == 2 else ast.Constant(value=None)), False
+        return None
 
-        def arm(val):
-            val = copy.deepcopy(val)
-            if isinstance(s, ast.Return):
-                return ast.copy_location(ast.Return(value=val), s)
-            return ast.copy_location(ast.Assign(targets=copy.deepcopy(s.targets), value=val), s)
+    def chain(self, s, clsname):
+        """case split of a simple statement on the key of the first constant-table lookup it contains: one arm per entry, in which
+        the lookup is replaced by the entry's value and the key expression by the entry's key"""
+        if isinstance(s, ast.Return) and s.value is None:
+            return None
+        found = self.find_lookup(s, clsname)
+        if found is None:
+            return None
+        node, lit, key, default, raise_missing = found
+        ktxt = ast.dump(key)
+
+        class Rep(ast.NodeTransformer):
+            def __init__(self, val, kconst):
+                self.val, self.kconst = val, kconst
+
+            def visit(self, n):
+                if n is node:
+                    return copy.deepcopy(self.val)
+                if self.kconst is not None and isinstance(n, (ast.Name, ast.Attribute)) and isinstance(getattr(n, 'ctx', None), ast.Load) and ast.dump(n) == ktxt:
+                    return copy.deepcopy(self.kconst)
+                return self.generic_visit(n)
+
+        def arm(val, kconst):
+            # deepcopy keeps `node` identity out of reach: replace on the original structure copy by position
+            return _replace_copy(s, node, val, key, kconst)
         if raise_missing:
             tail = [ast.copy_location(ast.Raise(exc=ast.Call(func=ast.Name(id='KeyError', ctx=ast.Load()), args=[copy.deepcopy(key)], keywords=[]), cause=None), s)]
         else:
-            tail = [arm(default)]
-        node = None
+            tail = [arm(default, None)]
+        top = None
         for k, val in reversed(list(zip(lit.keys, lit.values))):
             test = ast.Compare(left=copy.deepcopy(key), ops=[ast.Eq()], comparators=[copy.deepcopy(k)])
-            node = ast.If(test=test, body=[arm(val)], orelse=tail if node is None else [node])
-            ast.copy_location(node, s)
-            for x in ast.walk(node.test):
+            top = ast.If(test=test, body=[arm(val, k)], orelse=tail if top is None else [top])
+            ast.copy_location(top, s)
+            for x in ast.walk(top.test):
                 ast.copy_location(x, s)
-        ast.fix_missing_locations(node)
-        return [node]
+        ast.fix_missing_locations(top)
+        return [top]
+
+
+def _replace_copy(stmt, node, val, key, kconst):
+    """deep copy of stmt with `node` replaced by val and (when kconst is given) every other occurrence of the key expression by kconst"""
+    ktxt = ast.dump(key)
+
+    def rec(n):
+        if n is node:
+            new = copy.deepcopy(val)
+            for x in ast.walk(new):
+                ast.copy_location(x, node)
+            return new
+        if isinstance(n, list):
+            return [rec(x) for x in n]
+        if not isinstance(n, ast.AST):
+            return n
+        if kconst is not None and isinstance(n, (ast.Name, ast.Attribute)) and isinstance(getattr(n, 'ctx', None), ast.Load) and ast.dump(n) == ktxt:
+            new = copy.deepcopy(kconst)
+            for x in ast.walk(new):
+                ast.copy_location(x, n)
+            return new
+        new = type(n)()
+        for f in n._fields:
+            if hasattr(n, f):
+                setattr(new, f, rec(getattr(n, f)))
+        for a_ in ('lineno', 'col_offset', 'end_lineno', 'end_col_offset'):
+            if hasattr(n, a_):
+                setattr(new, a_, getattr(n, a_))
+        return new
+    return rec(stmt)
 
 
 class _Getattr(ast.NodeTransformer):
+    def visit_Subscript(self, node):
+        self.generic_visit(node)
+        # enums.<Class>['MEMBER']  ->  enums.<Class>.MEMBER
+        v = node.value
+        if isinstance(node.ctx, ast.Load) and isinstance(v, ast.Attribute) and isinstance(v.value, ast.Name) and v.value.id == 'enums' and v.attr[:1].isupper() \
+                and isinstance(node.slice, ast.Constant) and isinstance(node.slice.value, str) and node.slice.value.isidentifier():
+            return ast.copy_location(ast.Attribute(value=v, attr=node.slice.value, ctx=ast.Load()), node)
+        return node
+
     def visit_Call(self, node):
         self.generic_visit(node)
         if isinstance(node.func, ast.Name) and node.func.id == 'getattr' and len(node.args) == 2 and not node.keywords \
